@@ -90,21 +90,28 @@ def scen_problems(fname, kind, opts, seed):
     return call, R
 
 
-def scen_linalg(which, method, seed, opts=None):
+def scen_linalg(which, method, seed, opts=None, operands=""):
+    """operands: which optional operands are given - "E" (shifts), "M" (metric), "EM"; each operator is rebuilt in every call,
+    as a training loop does"""
     g = torch.Generator().manual_seed(seed)
     Q, _ = torch.linalg.qr(torch.randn(5, 5, generator=g, dtype=DT))
     Amat = ((Q * torch.linspace(1.0, 3.0, 5, dtype=DT)) @ Q.T).requires_grad_()
     B = torch.randn(5, 2, generator=g, dtype=DT).requires_grad_()
-    keep = (Amat, B)
+    Mdiag = torch.linspace(0.8, 1.4, 5, dtype=DT).requires_grad_()
+    Evals = torch.tensor([0.31, -0.2], dtype=DT).requires_grad_()
+    keep = (Amat, B, Mdiag, Evals)
 
     def call():
         As = (Amat + Amat.T) * 0.5
         A = LinearOperator.m(As, is_hermitian=True)
+        M = LinearOperator.m(torch.diag(Mdiag * 1.0), is_hermitian=True) if "M" in operands else None
+        E = Evals * 1.0 if "E" in operands else None
+        leaves = [Amat] + ([Mdiag] if M is not None else []) + ([Evals] if E is not None else [])
         if which == "solve":
-            return xitorch.linalg.solve(A, B, method=method, **(opts or {})), [Amat, B]
-        if which == "symeig":
-            ev, evec = xitorch.linalg.symeig(A, neig=2, method=method)
-            return torch.cat([ev, (evec ** 2).reshape(-1)]), [Amat]
+            return xitorch.linalg.solve(A, B, E, M, method=method, **(opts or {})), leaves + [B]
+        if which in ("symeig", "lsymeig", "usymeig"):
+            ev, evec = getattr(xitorch.linalg, which)(A, neig=2, M=M, method=method, **(opts or {}))
+            return torch.cat([ev, (evec ** 2).reshape(-1)]), leaves
         u, s, vh = xitorch.linalg.svd(LinearOperator.m(Amat[:, :4], is_hermitian=False), k=2, method=method)
         return torch.cat([s, (u ** 2).reshape(-1), (vh ** 2).reshape(-1)]), [Amat]
     return call, keep
@@ -166,6 +173,16 @@ def scenarios(thorough, seed):
         out.append(("solve/%s/dense" % m, lambda m=m: scen_linalg("solve", m, seed)))
     for m in ("exacteig", "custom_exacteig", "davidson"):
         out.append(("symeig/%s/dense" % m, lambda m=m: scen_linalg("symeig", m, seed)))
+        # optional operands: the generalised problem (metric M), the other end of the spectrum
+        out.append(("symeig/%s/dense+M" % m, lambda m=m: scen_linalg("symeig", m, seed, operands="M")))
+        if thorough or m == "davidson":
+            out.append(("usymeig/%s/dense+M" % m, lambda m=m: scen_linalg("usymeig", m, seed, operands="M")))
+            out.append(("lsymeig/%s/dense" % m, lambda m=m: scen_linalg("lsymeig", m, seed)))
+    # (gmres with shifts is left out: its handling of E is the known finding recorded under C01, the call does not complete)
+    for m in (["exactsolve", "cg", "bicgstab", "broyden1", "custom_exactsolve"] if thorough else ["exactsolve", "cg", "bicgstab"]):
+        for operands in (("E", "EM") if thorough else ("EM",)):
+            out.append(("solve/%s/dense+%s" % (m, operands), lambda m=m, operands=operands: scen_linalg("solve", m, seed, operands=operands)))
+    out.append(("svd/davidson/dense", lambda: scen_linalg("svd", "davidson", seed)))
     out.append(("svd/exacteig/dense", lambda: scen_linalg("svd", "exacteig", seed)))
     out.append(("symeig/custom_exacteig/exactly-representable-spectrum", lambda: scen_singular("symeig-backward", seed)))
     out.append(("solve/exactsolve/shift-on-spectrum", lambda: scen_singular("solve", seed)))
